@@ -155,6 +155,7 @@ def _child_mask(script):
 
 
 def _child(script):
+    sys.set_int_max_str_digits(0)
     return _child_mask(script) if script.get('kind') == 'mask' else _child_enum(script)
 
 
@@ -339,12 +340,15 @@ def mask_scripts(ctx, infos, masks):
         vs = sorted(info.values)
         n = len(vs)
         big = vs[-1] - vs[0] > 4096
+        if vs[-1] - vs[0] > 100000:
+            ctx.count('mask_derivation_skipped_span_too_wide')     # 1 << (2**32 - 1) is not a test of anything
+            continue
         offs = [(0, True)] if vs[0] >= 0 else []
         offs += [(vs[0], True)] if vs[0] > 0 else []
         offs += [(vs[0] - 3, True), (vs[0] + 1, False)]       # the last one: a member below the offset (ValueError)
         for j, (off, db) in enumerate(offs):
             limit = (256 if big else 4096 if j == 0 else 512) * (4 if ctx.thorough and not big else 1)
-            out.append({'kind': 'mask', 'enum': info.q, 'offset': off, 'define_bits': db, 'names': db,
+            out.append({'kind': 'mask', 'enum': info.q, 'offset': off, 'define_bits': db, 'names': db and not big,
                         'pre': [vs[-1] + 1, vs[-1] + 2, vs[0] - 1, 77] if j % 2 else [],
                         'subsets': subsets_of(n, rng, limit),
                         'raw_masks': [rng.getrandbits(rng.choice([4, 8, 16, 40])) for _ in range(20)] if not big else [0, 1, 5]})
@@ -470,7 +474,11 @@ def judge_mask(ctx, script, res, lines, pend):
                 bad.append(('C17/mask/roundtrip-differs', '%s: to_values(to_bitmask(S)) = [%s] for S = [%s] (mask 0x%s)'
                             % (tag, row.get('back'), want, row['mask'][:40]), rp))
             if script.get('names') and 'bymask' in row and not row['mask'].startswith('!'):
-                if row['bymask'].startswith('!') or row.get('byback') != want:
+                if row['bymask'].startswith('!'):
+                    # e.g. a base enum with mixed-case names: to_bitmask upper-cases the string.  The property speaks of
+                    # members; the string form is compared with the model only.
+                    ctx.count('mask_by_name_raises')
+                elif row.get('byback') != want:
                     bad.append(('C17/mask/roundtrip-by-name-differs', '%s: to_values(to_bitmask(names of S)) = [%s] for S = [%s]'
                                 % (tag, row.get('byback', row['bymask']), want), rp))
         items = ','.join(str(vals[i]) for i in idxs) or '-'
